@@ -362,6 +362,7 @@ pub fn drive(spec: &CheckSpec, tier: &str) -> i32 {
 	let mut violations: Vec<(u64, u64, Violation)> = vec![];
 	let mut extra: BTreeMap<String, Value> = BTreeMap::new();
 	let mut worker_wall = 0.0;
+	let mut log_bytes: Vec<u8> = vec![];
 	for (case, r) in &results {
 		runs += r.runs;
 		steps += r.steps;
@@ -373,7 +374,9 @@ pub fn drive(spec: &CheckSpec, tier: &str) -> i32 {
 		for (k, v) in &r.probes {
 			*probes.entry(k.clone()).or_insert(0) += v;
 		}
+		log_bytes.extend_from_slice(&case.to_le_bytes());
 		for (d, nt) in &r.run_digests {
+			log_bytes.extend_from_slice(&d.to_le_bytes());
 			all_digests.insert(*d);
 			if *nt {
 				distinct.insert(*d);
@@ -473,6 +476,9 @@ pub fn drive(spec: &CheckSpec, tier: &str) -> i32 {
 	coverage.insert("steps".into(), json!(steps));
 	coverage.insert("sim_time_s".into(), json!(sim_time));
 	coverage.insert("distinct_event_logs".into(), json!(all_digests.len()));
+	// one digest over the event-log digests of all runs in case order: equal across repeated
+	// passes and worker counts iff every run was reproduced exactly
+	coverage.insert("event_log_digest".into(), json!(format!("{:016x}", crate::rng::fnv64(&log_bytes))));
 	coverage.insert("distinct_states".into(), json!(states.len()));
 	coverage.insert("faults_fired".into(), json!(faults));
 	coverage.insert("probes".into(), json!(probes));
